@@ -135,6 +135,24 @@ func ruleCondDirect(p *Program, r *Reporter) {
 // directPart: "" when v is a chain of field / element selections starting at
 // the type-switched node parameter.
 func directPart(v ssa.Value, node ssa.Value, depth int) string {
+	why := directPart0(v, node, depth)
+	if why == "" || depth > 6 {
+		return why
+	}
+	// the parts were first collected in a local list or struct (the arms of
+	// a switch sorted into two lists, say): every value put there is a part
+	if srcs, ok := localSources(v); ok && len(srcs) > 0 {
+		for _, s := range srcs {
+			if s == v || directPart(s, node, depth+3) != "" {
+				return why
+			}
+		}
+		return ""
+	}
+	return why
+}
+
+func directPart0(v ssa.Value, node ssa.Value, depth int) string {
 	if depth > 12 {
 		return "selection chain too long"
 	}
@@ -305,6 +323,24 @@ func returnsPartsOf(g *ssa.Function) (int, bool) {
 // strictPart: v selects a field or element on its way back to node (it is a
 // proper part, not the node itself seen through a conversion or assertion).
 func strictPart(v ssa.Value, node ssa.Value, depth int) bool {
+	if strictPart0(v, node, depth) && directPart0(v, node, depth) == "" {
+		return true
+	}
+	if depth > 6 {
+		return strictPart0(v, node, depth)
+	}
+	if srcs, ok := localSources(v); ok && len(srcs) > 0 {
+		for _, s := range srcs {
+			if s == v || !strictPart(s, node, depth+3) {
+				return strictPart0(v, node, depth)
+			}
+		}
+		return true
+	}
+	return strictPart0(v, node, depth)
+}
+
+func strictPart0(v ssa.Value, node ssa.Value, depth int) bool {
 	if depth > 12 || v == node {
 		return false
 	}
